@@ -331,6 +331,12 @@ def run(tier, seed, rep):
     from .. import sessions
     _ses = sessions.explore_sessions(tier, seed, {'C07'}, light=True)
     rep.add_many([v for v in _ses.violations if v['prop'] == 'C07'])
+    # a fragmented answer while other callers (asking for blocks of other lengths) queue on the same object
+    from . import c06
+    novl, ovl = c06.acceptance_stage(tier, seed, ('frag2@.4T',))
+    for v in ovl:
+        v['key'] = 'overlapping-callers:' + v['key']
+    rep.add_many(ovl)
     nparts = 8 if tier == 'thorough' else 2
     jobs = [(f, tier, ka, part, nparts) for f in ('rtu', 'tcp', 'aa55') for ka in (False, True) for part in range(nparts)]
     k = seed % len(jobs)
@@ -347,7 +353,7 @@ def run(tier, seed, rep):
         rep.add_many(out)
         if sample and len(samples) < 3:
             samples.append(sample)
-    cov = dict(session_histories=_ses.executions, session_states=len(_ses.states), session_choice_points=_ses.choice_points,
+    cov = dict(overlapping_caller_executions=novl, session_histories=_ses.executions, session_states=len(_ses.states), session_choice_points=_ses.choice_points,
                states=len(states), transitions=total, executions=total, traces_validated_against_impl=total,
                outcome_classes={str(k): v for k, v in sorted(ocs.items(), key=str)}, exhaustive=True,
                bound=('counts 1..125' if tier == 'thorough' else 'counts {1,2,61,125}') +
@@ -368,6 +374,11 @@ def replay(r):
         from .. import sessions
         out = sessions.replay(r)
         out['violations'] = [m for m in out['violations'] if m[0] == 'C07']
+        return out
+    if r.get('part') == 'overlap':
+        from . import c06
+        out = c06.replay(r)
+        out['violations'] = [v for v in out['violations'] if v[0].startswith('answered-at-once:frag')]
         return out
     case = [bytes.fromhex(c['hex']) if isinstance(c, dict) and 'hex' in c else c for c in r['case']]
     v, o = run_case(tuple(case), r['ka'])
